@@ -815,6 +815,18 @@ func (env *SpecEnv) call(x SCall) SpecVal {
 		}
 		return env.Eval(x.Args[i])
 	}
+	if x.Fun == "atentry" {
+		// atentry(e): e in the state in which the current loop was entered (before its first iteration);
+		// for an inner loop that is a state inside the current iteration of the outer loop
+		if env.loop == nil || env.loop.preSt == nil || len(x.Args) != 1 {
+			specFail("atentry(e) is only available in loop invariants")
+		}
+		savedSt := env.st
+		env.st = env.loop.preSt
+		v := env.Eval(x.Args[0])
+		env.st = savedSt
+		return v
+	}
 	if x.Fun == "athead" {
 		// athead(e): e as it was at the loop head of the iteration whose end is being examined
 		if env.head == nil || len(x.Args) != 1 {
